@@ -232,15 +232,20 @@ func (d *dumper) node(depth int, path string, n schema.Node) {
 	sort.Strings(dn)
 	attrs = append(attrs, fmt.Sprintf("defchildren=%v", dn))
 	d.line(depth, "%s %s %s", kind, p, strings.Join(attrs, " "))
+	nsMasked := d.o.NoModuleNamespace || (d.o.MaskModuleOf != nil && d.o.MaskModuleOf(p))
 	for _, w := range n.Whens() {
 		expr := ""
 		if w.Mach != nil {
 			expr = w.Mach.GetExpr()
 		}
+		ns := w.Namespace
+		if nsMasked {
+			ns = "(masked)"
+		}
 		if d.o.MaskRunAsParent {
-			d.line(depth+1, "when %q ns=%q", expr, w.Namespace)
+			d.line(depth+1, "when %q ns=%q", expr, ns)
 		} else {
-			d.line(depth+1, "when %q ns=%q runasparent=%v", expr, w.Namespace, w.RunAsParent)
+			d.line(depth+1, "when %q ns=%q runasparent=%v", expr, ns, w.RunAsParent)
 		}
 	}
 	for _, m := range n.Musts() {
@@ -248,7 +253,11 @@ func (d *dumper) node(depth int, path string, n schema.Node) {
 		if m.Mach != nil {
 			expr = m.Mach.GetExpr()
 		}
-		d.line(depth+1, "must %q msg=%q apptag=%q ns=%q", expr, m.ErrMsg, m.AppTag, m.Namespace)
+		ns := m.Namespace
+		if nsMasked {
+			ns = "(masked)"
+		}
+		d.line(depth+1, "must %q msg=%q apptag=%q ns=%q", expr, m.ErrMsg, m.AppTag, ns)
 	}
 	switch n.(type) {
 	case schema.Leaf, schema.LeafList:
